@@ -124,8 +124,10 @@ func (c *NoiseConn) Read(b []byte) (n int, err error) {
 	// of our AEAD connection, and the stream abstraction of TCP, we
 	// maintain an intermediate read buffer. If this buffer becomes
 	// depleted, then we read the next record, and feed it into the
-	// buffer. Otherwise, we read directly from the buffer.
-	if c.readBuf.Len() == 0 {
+	// buffer. Otherwise, we read directly from the buffer. Empty records
+	// are skipped: reading from the empty buffer would return io.EOF,
+	// which tells the caller that the connection was closed.
+	for c.readBuf.Len() == 0 {
 		plaintext, err := c.noise.ReadMessage(c.conn)
 		if err != nil {
 			return 0, err
